@@ -299,7 +299,7 @@ func (r *Run) throughLocals(fn *Func, x ast.Expr) ast.Expr {
 // a session freshly made by models.NewSession.
 func (r *Run) returnsNewSession(f *types.Func) bool {
 	def := r.P.Funcs[f]
-	if def == nil || f.Exported() {
+	if def == nil || !r.P.isGlue(f) {
 		return false
 	}
 	ok, n := true, 0
